@@ -49,6 +49,8 @@ struct VThread {
 	VClock vc;
 	std::function<void()> body;
 	const char * lastTag;
+	std::vector<const void *> held;   // mutexes / spin locks this thread holds, in acquisition order
+	VClock startVc;                   // clock inherited when the thread was spawned
 };
 
 struct Worker {
@@ -113,7 +115,7 @@ public:
 	// ---- lifecycle (called on the harness's main thread, which becomes thread 0)
 	void begin() {
 		for(size_t i = 0; i < threads.size(); ++i) { sem_destroy(&threads[i]->sem); delete threads[i]; }
-		threads.clear(); locs.clear(); spinClocks.clear(); sharedRanges.clear();
+		threads.clear(); locs.clear(); spinClocks.clear(); sharedRanges.clear(); lockEdges.clear();
 		active = true; aborting = false; steps = 0; progress = 0; horizonHit = false; preemptions = 0; spuriousUsed = 0; pruned = false; quiet = false;
 		deadlock = DeadlockInfo();
 		VThread * t0 = new VThread();
@@ -132,7 +134,7 @@ public:
 		sem_init(&t->sem, 0, 0);
 		VThread * parent = me();
 		parent->vc.c[parent->id]++;
-		t->vc = parent->vc;
+		t->vc = parent->vc; t->startVc = parent->vc;
 		threads.push_back(t);
 		size_t wi = (size_t)t->id - 1;
 		while(pool.size() <= wi) {
@@ -206,6 +208,35 @@ public:
 		if(race) gctx()->fail("data-race", std::string("unsynchronised conflicting accesses to a shared container or object: ") + tag + " vs earlier " + other);
 		if(write) { l.lastWrite = m->vc; l.lastWriter = m->id; l.wtag = tag; l.reads = VClock(); }
 		else { l.reads.c[m->id] = m->vc.c[m->id]; }
+	}
+	// ---- lock-order graph of the running execution (edge: "b was acquired while a was held", with who did it and what else
+	// was held). Two threads acquiring the same two locks in opposite orders, with no common lock held around both and no
+	// happens-before order between the two critical sections, can deadlock in another schedule of the same execution.
+	struct LockEdge { const void * a, * b; int thread; std::vector<const void *> heldToo; VClock when; VClock doneWith; bool open; };
+	std::vector<LockEdge> lockEdges;
+	void lockAcquired(const void * m) {
+		VThread * t = me();
+		if(!t || !active || aborting) return;
+		for(const void * h : t->held) {
+			if(h == m) continue;
+			for(const LockEdge & e : lockEdges) {
+				if(e.a != m || e.b != h || e.thread == t->id) continue;
+				bool gate = false; for(const void * g : e.heldToo) for(const void * g2 : t->held) if(g == g2 && g != h && g != m) gate = true;
+				// ordered: the other critical section was over before this thread even started (orders that arise from handing over the
+				// very locks in question do not count: they are what another schedule changes)
+				bool ordered = !e.open && e.doneWith.leq(t->startVc);
+				if(!gate && !ordered) { gctx()->fail("lock-order-inversion", "two threads take the same two locks in opposite orders (a deadlock in another schedule of this execution)"); break; }
+			}
+			LockEdge ne; ne.a = h; ne.b = m; ne.thread = t->id; ne.heldToo = t->held; ne.when = t->vc; ne.open = true;
+			lockEdges.push_back(ne);
+		}
+		t->held.push_back(m);
+	}
+	void lockReleased(const void * m) {
+		VThread * t = me();
+		if(!t || !active) return;
+		for(size_t i = t->held.size(); i-- > 0; ) if(t->held[i] == m) { t->held.erase(t->held.begin() + i); break; }
+		for(LockEdge & e : lockEdges) if(e.thread == t->id && e.open && (e.a == m || e.b == m)) { e.open = false; e.doneWith = t->vc; }
 	}
 	void forgetLoc(const void * loc) { locs.erase(loc); }   // a new object at a reused address has no access history
 	void tick() { VThread * m = me(); if(m) m->vc.c[m->id]++; }
@@ -380,6 +411,7 @@ struct VMutex {
 		s.switchFrom(m, "mutex.lock");
 		owner = m->id; m->st = T_RUNNABLE;
 		m->vc.join(vc);
+		s.lockAcquired(this);
 		s.observe(0x4c4f434bULL);
 	}
 	bool try_lock() {
@@ -388,12 +420,12 @@ struct VMutex {
 		if(s.active && m && !s.aborting) s.point("mutex.try_lock");
 		if(owner >= 0) return false;
 		owner = m ? m->id : 0;
-		if(m) m->vc.join(vc);
+		if(m) { m->vc.join(vc); s.lockAcquired(this); }
 		return true;
 	}
 	void unlock() {
 		VThread * m = Sched::me();
-		if(m) { vc.join(m->vc); m->vc.c[m->id]++; }
+		if(m) { sched().lockReleased(this); vc.join(m->vc); m->vc.c[m->id]++; }
 		owner = -1;
 	}
 };
@@ -598,8 +630,8 @@ extern "C" void eventpp_verif_point(const char * tag, const void * obj) {
 		verif::VThread * m = verif::Sched::me();
 		if(!s.active || s.aborting || !m) return;
 		if(tag[9] == 'l') s.point(tag);
-		else if(tag[9] == 'a') m->vc.join(s.spinClocks[obj]);
-		else { s.spinClocks[obj].join(m->vc); m->vc.c[m->id]++; ++s.progress; }
+		else if(tag[9] == 'a') { m->vc.join(s.spinClocks[obj]); s.lockAcquired(obj); }
+		else { s.lockReleased(obj); s.spinClocks[obj].join(m->vc); m->vc.c[m->id]++; ++s.progress; }
 		return;
 	}
 	if(s.ignoreTagPrefix && strncmp(tag, s.ignoreTagPrefix, strlen(s.ignoreTagPrefix)) == 0) return;
